@@ -1432,16 +1432,18 @@ async def c13_case(backend, workers, seed, counters, cycles=120):
         await t.send(["REQ", "slow", {"kinds": [1], "#t": ["flow"], "limit": 5}])
         await asyncio.sleep(0.7)
         await t.send(["CLOSE", "slow"])
-        await t.send(["REQ", "mark", {"kinds": [9999], "limit": 0}])
-        await t.wait_for(lambda fr: [m for m in fr if isinstance(m, list) and m[:2] == ["EOSE", "mark"]], timeout=30)
+        # the marker here is a REQ the relay REFUSES: its NOTICE is written by the connection handler itself (not by the
+        # sender task, whose queue the CLOSE has just purged), after the CLOSE before it was processed
+        await t.send(["REQ", "mark", {"#e": [["unhashable"]]}])
+        await t.wait_for(lambda fr: [m for m in fr if isinstance(m, list) and m[:1] == ["NOTICE"]], timeout=30)
         await asyncio.sleep(6.0)
-        seen, late = late_events(t, "slow", lambda m: m[:2] == ["EOSE", "mark"])
+        seen, late = late_events(t, "slow", lambda m: m[:1] == ["NOTICE"])
         bump(counters, "e2e_throttled_close_checks")
         nontrivial.append(h(["e2e-c13", backend, "throttled"]))
         if not seen:
-            inconcl.append("e2e c13: the throttled connection got no EOSE for the marker REQ")
+            inconcl.append("e2e c13: the throttled connection got no NOTICE for the refused marker REQ")
         elif late:
-            V("event-after-closed/throttled-connection", "on a connection the relay was slowing down, %d EVENT frame(s) for a closed subscription arrived after the marker's EOSE proving the CLOSE had been processed" % len(late))
+            V("event-after-closed/throttled-connection", "on a connection the relay was slowing down, %d EVENT frame(s) for a closed subscription arrived after the NOTICE (for a refused REQ sent behind the CLOSE) that proves the CLOSE had been processed" % len(late))
     finally:
         for c in conns:
             await c.close()
